@@ -1,7 +1,7 @@
 (** Property C07: phonetic candidates are ranked best-first by a fixed, explainable order. *)
 From Coq Require Import Sorted.
 Require Import Riti.model.Base Riti.model.Chars Riti.model.Split Riti.model.Rank Riti.model.Layout Riti.model.Phonetic
-        Riti.model.TestOracle Riti.proofs.Rank_Proof Riti.proofs.Phonetic_Proof Riti.proofs.C05_Proof Riti.proofs.Lists_Proof.
+        Riti.model.TestOracle Riti.proofs.Rank_Proof Riti.proofs.Phonetic_Proof Riti.proofs.C05_Proof Riti.proofs.Lists_Proof Riti.proofs.Order_Proof.
 
 (** The comparator of the code is the lexicographic order on (class, number): First < Emoji/Other < Last,
     then the number (emoji position, 10 x edit distance, Last rank) - for ALL ranks, a total preorder. *)
@@ -17,6 +17,18 @@ Theorem C07_sorted :
   forall (Q : oracles) c m uac sels term,
     let '(_, l, _, _) := suggest Q c m uac sels term in StronglySorted key_le l.
 Proof. exact suggest_sorted. Qed.
+
+(** Read position by position (for every strongly sorted list, hence for every returned list): dictionary words are
+    in non-decreasing distance; only auto-correct items precede an auto-correct item; after the transliteration
+    and the raw-text items come only such items in the order emoticon text, transliteration, raw English; an
+    emoji (number >= 1) never precedes a dictionary word of distance 0. *)
+Theorem C07_order_consequences :
+  forall l, StronglySorted key_le l ->
+    (forall i j a d1 b d2, (i < j)%nat -> nth_error l i = Some (ROther a d1) -> nth_error l j = Some (ROther b d2) -> d1 <= d2) /\
+    (forall i j x s, (i < j)%nat -> nth_error l i = Some x -> nth_error l j = Some (RFirst s) -> exists s', x = RFirst s') /\
+    (forall i j s r y, (i < j)%nat -> nth_error l i = Some (RLast s r) -> nth_error l j = Some y -> exists s' r', y = RLast s' r' /\ r <= r') /\
+    (forall i j e r a, (i < j)%nat -> nth_error l i = Some (REmoji e r) -> nth_error l j = Some (ROther a 0) -> r = 0).
+Proof. exact order_consequences. Qed.
 
 (** suffix-built items keep class and number of their base (add_suffix only rewrites the text) *)
 Theorem C07_suffix_items_inherit_rank :
@@ -47,5 +59,6 @@ Example C07_nonvacuous :
 Proof. vm_compute. reflexivity. Qed.
 
 Print Assumptions C07_sorted.
+Print Assumptions C07_order_consequences.
 Print Assumptions C07_comparator_is_key_order.
 Print Assumptions C07_no_duplicates_dictionary_part.
